@@ -249,6 +249,8 @@ class C12(Prop):
                     fails.append("concurrent run: %s" % l)
                 elif fs[0] == "reset" and l != "ok":
                     fails.append("reset: %s" % l)
+                elif fs[0] == "mixed" and l != "ok %d" % int(fs[1]):
+                    fails.append("concurrent run (small requests against requests that more than double): %s" % l)
             if len(il) < len(case.ops):
                 fails.append("harness stopped after %d of %d ops" % (len(il), len(case.ops)))
             return fails
@@ -487,6 +489,7 @@ class C12(Prop):
             for _ in range(2 if ctx.tier == "quick" else 3):
                 ops += [["stress", g, m, rng.randrange(1, 1 << 30), mx], ["reset"]]
             cases.append(Case("stress%d" % k, "allocstress", [init], ops))
+        cases.append(Case("mixed0", "allocstress", [64], [["mixed", 1500 if ctx.tier == "quick" else 20000, 16]]))
         out = []
         race = ctx.tier == "thorough" and os.path.exists(os.path.join(core.BUILD, "z_race.test"))
         cf = os.path.join(core.BUILD, "cases_C12_stress.txt")
